@@ -7,6 +7,7 @@ A scenario is a plain dict (JSON-able):
     n, b, w numbers of examples, buffer size, workers
     key     iterate .items() instead of values (dataset entries only)
     stop    ['exhaust'] | ['close', k] | ['drop', k] | ['throw', k]
+    path    None | a consumption path of vlib/vias.py (dataset entries only)
     faults  {'src': {pos: kind}, 'fn': {pos: kind}}   kind: value|user|filter|base
     catch   None | 'true' | 'user' | 'tuple' | 'exception'
 Events (thread, what, ...): pull i, start i, end i, deliver v, exhausted,
@@ -210,16 +211,30 @@ def make_body(sc, e, raised_objs):
             else:
                 base = ld.new(list(range(n)))
             ds = base.map(src_fn)
-            if entry == 'pf1':
-                ds = ds.map(fn).prefetch(1, b, catch_filter_exception=catch)
-            elif entry == 'pft':
-                ds = ds.map(fn).prefetch(w, b, 't', catch_filter_exception=catch)
-            elif entry == 'parmap':
-                ds = ds.map(fn, num_workers=w, buffer_size=b, backend='t')
-            elif entry == 'chain':
-                ds = ds.map(fn).prefetch(w, max(b, w), 't').prefetch(1, b)
-            else:
-                raise ValueError(entry)
+            try:
+                if entry == 'pf1':
+                    ds = ds.map(fn).prefetch(1, b, catch_filter_exception=catch)
+                elif entry == 'pft':
+                    ds = ds.map(fn).prefetch(w, b, 't', catch_filter_exception=catch)
+                elif entry == 'parmap':
+                    ds = ds.map(fn, num_workers=w, buffer_size=b, backend='t')
+                elif entry == 'chain':
+                    ds = ds.map(fn).prefetch(w, max(b, w), 't').prefetch(1, b)
+                else:
+                    raise ValueError(entry)
+                if sc.get('path'):
+                    # consumed through a copy / below a lazy apply / inside the
+                    # profiling wrapper (vlib/vias.py): every parameter of the
+                    # prefetching stage has to survive that
+                    from .vias import through
+                    ds = through(ld, ds, sc['path'])
+            except S.STOP:
+                raise
+            except BaseException as exc:
+                if not sc.get('may_refuse'):
+                    raise
+                ev('build_refused', type(exc).__name__)
+                return [], ('build-refused', exc), S.mark(), S.quiesce()
             try:
                 ln = len(ds)
             except BaseException:
@@ -336,6 +351,8 @@ def judge_transparent(sc, r, res, ld):
         res.violation('source-not-read-exactly-once', case, {'pulls': pulls}, sig=sig)
         return False
     lens = [e[2] for e in r['events'] if e[1] == 'len']
+    if sc.get('path') and lens and lens[0] is None:
+        lens = []          # a lazy apply offers no length
     if lens and lens[0] is not None and lens[0] != sc['n'] and not sc.get('catch'):
         res.violation('len-differs', case, {'len': lens[0]}, sig=sig)
         return False
